@@ -84,7 +84,8 @@ def run(ctx):
             "ConsumerGroup.on_join_prepare does not return the graceful shutdown of all consumers", where(ojp, ojp.node))
     cs = ctx.cfg(sdc)
     swap = [n for n in cs.nodes if node_assign_value(n, "consumers") is not None]
-    sh = [n for n in cs.nodes if any(call_name(x) == "shutdown" and call_recv(x) == "consumer" for x in n.calls())]
+    loopvars = {unparse(n.stmt.target) for n in cs.nodes if n.kind == "for"}
+    sh = [n for n in cs.nodes if any(call_name(x) == "shutdown" and call_recv(x) in loopvars for x in n.calls())]
     wait = [n for n in cs.nodes if n.suspends and any(isinstance(x, ast.Call) and call_name(x) == "DeferredList" for x in n.walk())]
     r.check(bool(swap) and bool(sh) and bool(wait) and cs.dominates([swap[0].id], sh[0].id) and wait[0].id in cs.reach([sh[0].id]),
             "%s#swap-shutdown-wait" % sdc.qname, "graceful shutdown does not empty the table, shut every consumer down and "
@@ -118,7 +119,8 @@ def run(ctx):
     ogl = prog.method(gci, "on_group_leave")
     stc = ctx.func(GROUP + ".stop_consumers")
     r.check(ogl.cls is gci and any(prog.resolve_call(ogl, x) is stc for x in calls_in(ogl)) and any(
-        call_name(x) == "stop" and call_recv(x) == "consumer" for x in calls_in(stc)), "%s#forcible-stop" % ogl.qname,
+        call_name(x) == "stop" and call_recv(x) in {unparse(y.target) for y in ast.walk(stc.node) if isinstance(y, ast.For)}
+        for x in calls_in(stc)), "%s#forcible-stop" % ogl.qname,
         "ConsumerGroup.on_group_leave does not forcibly stop every consumer", where(ogl, ogl.node))
 
     # ---- R4 single join in flight
